@@ -504,6 +504,11 @@ def _known_match_native(ct, g, inp):
     from pyvc.engine import Env, unjson
     for kf in ct.known:
         env = Env({k: unjson(v) for k, v in inp.items()})
+        if ct.replay_args:
+            try:
+                env.update(ct.replay_args(g, dict(env)).get("env", {}))
+            except Exception:
+                pass
         for k, v in g.items():
             env.setdefault(k, v)
         try:
